@@ -797,6 +797,33 @@ def hErsReconcile (inp out : Json) : Except String Findings := do
       | none => false))
   -- C10: created pods are pinned and carry the metadata
   let fs := spec fs "C10.api-pinned-meta" (o.creates.all (fun c => Spec.C10.pinned c.pod c.node aff && Spec.C10.metaOk c.pod rs))
+  -- C03 at the level of the whole sync (this is where pods adopted from the old DaemonSet enter):
+  -- the pods deleted for updating respect the availability budget computed on the entries
+  let fs := if role != "active" then fs else
+    match resolveDeletes m.entries (updDel.filterMap (fun nm =>
+        match m.entries.find? (fun e => match e.2 with | some p => p.name == nm | none => false) with
+        | some e => some ({ node := e.1.node.name, pod := nm } : DelJ)
+        | none => none)) with
+    | none => fs
+    | some del =>
+      if del.length != updDel.length then fs.push "DIFF deleted.update.unresolved" else
+      let ru := d.strategy.rollingUpdate
+      let n : Int := m.entries.length
+      match resolveIntOrPercent ru.maxUnavailable n, resolveIntOrPercent ru.maxPodSchedulerFailure n with
+      | some mu, some ms => spec fs "C03.holds(sync level, adopted pods included)" (Spec.C03.holds rs.templateGeneration now m.entries mu ms del)
+      | _, _ => fs
+  -- C18: only valid settings of this namespace referencing this EDS and selecting the node influence
+  -- a created pod, and exactly one of them (or none when there is none)
+  let distinctNames := decide (rs.template.containers.map (·.name)).Nodup
+  let fs := if !distinctNames then fs else
+    spec fs "C18.only-valid-setting-applied" (o.creates.all (fun c =>
+      match nodes.find? (fun n => n.name == c.node) with
+      | none => true
+      | some n =>
+        let applicable := settings.filter (fun s => s.ns == d.ns && s.reference == some d.name &&
+                            s.status == "valid" && settingMatches s n.labels == some true)
+        if applicable.isEmpty then Spec.C10.resources c.pod rs.template n none
+        else applicable.any (fun s => Spec.C10.resources c.pod rs.template n (some s))))
   -- C14: counter ordering for the active / canary role
   let fs := match o.statusUpdate with
     | some s => spec fs "C14.ers-order" (s.status == "unknown" || s.status == "" ||
@@ -940,7 +967,51 @@ def hMetrics (inp out : Json) : Except String Findings := do
   let fs := spec fs "C20.info-labels" (info es "eds_labels" d.labels && info rs "ers_labels" e.labels)
   return fs
 
+/-! ### PodTemplate controller (C13, last clause) -/
+deriving instance FromJson for PodTpl
+
+def podTplStr (p : PodTpl) : String :=
+  s!"name={p.name} ns={p.ns} labels=[{smapStr p.labels}] ann=[{smapStr p.annotations}] hash={p.templateHash} owner={flat p.ownerEds} tpl={flat p.template}"
+
+def hPodTemplate (inp out : Json) : Except String Findings := do
+  let d : EDS ← get inp "eds"
+  let consistent : Bool ← get inp "consistent"
+  let cur : Option PodTpl := (inp.getObjValAs? PodTpl "cur").toOption
+  let kind : String ← get out "kind"
+  let write : String ← get out "write"
+  let written : Option PodTpl := (out.getObjValAs? PodTpl "written").toOption
+  let after : Option PodTpl := (out.getObjValAs? PodTpl "after").toOption
+  let foreign : List String ← get out "foreign"
+  let second : Nat ← get out "secondWrites"
+  let fs : Findings := #[]
+  let fs := spec fs "C16.reconcile-no-crash(PodTemplate)" (kind != "panic")
+  if kind == "panic" then return fs else
+  let m := reconcilePodTemplate d cur
+  let (mw, mo) := match m with
+    | .none => ("none", (none : Option PodTpl))
+    | .create p => ("create", some p)
+    | .update p => ("update", some p)
+  let fs := diff fs "kind" kind "ok"
+  let fs := diff fs "write" write mw
+  let fs := diff fs "written" (written.map podTplStr) (mo.map podTplStr)
+  let fs := diff fs "after" (after.map podTplStr) ((m.apply cur).map podTplStr)
+  -- specification on the implementation's own writes and on the store it leaves
+  let fs := spec fs "C12.writes-owned(podtemplate)" foreign.isEmpty
+  let fs := match written with
+    | some p => spec fs "C13.podtemplate-write-faithful"
+        (p.name == d.name && p.ns == d.ns && p.templateHash == d.templateHash && flat p.template == flat d.template
+         && SMap.get? p.annotations K.templateHashAnnot == some d.templateHash && p.ownerEds == some d.name)
+    | none => fs
+  let fs := if consistent || written.isSome then
+      spec fs "C13.podtemplate-mirrors" (match after with
+        | some p => p.templateHash == d.templateHash && SMap.get? p.annotations K.templateHashAnnot == some d.templateHash
+        | none => false)
+    else fs
+  let fs := spec fs "C13.podtemplate-no-loop" (second == 0)
+  return fs
+
 def handlers : List (String × (Json → Json → Except String Findings)) := [
+  ("podtemplate", hPodTemplate),
   ("limits", hLimits),
   ("max_creation", hMaxCreation),
   ("manage_deployment", hManageDeployment),
